@@ -90,7 +90,7 @@ struct alignas(64) ThreadShared {
 
 // reupgrade: may one hold contain upgrade -> downgrade -> upgrade? Always. (On queuing_rw_mutex the pattern used to strand a waiting
 // upgrader - found by class R, repaired by fix 8d13147 - and was kept apart from the other classes until then.)
-struct RoundParams { int cls, nlocks, profile, nops, wpct, trypct; bool heavy; int holder_mode, ntries, upgraders; bool reupgrade; };
+struct RoundParams { int cls, nlocks, profile, nops, wpct, trypct; bool heavy; int holder_mode, ntries, upgraders; bool reupgrade; bool reuse_objects = false; };
 
 struct Batch {
     int kind = 0, nthreads = 2, nrounds = 0; uint64_t seed = 0; bool rw = false; int fifo_hook = 0;
@@ -136,18 +136,22 @@ static void point_observer(int id, const void* obj, long arg) {
 }
 
 // ------------------------------------------------------------------------------------------------ lock handle
+static std::atomic<long> g_reused_objects{0};
 template <class M> struct Lk {
     using S = typename M::scoped_lock;
     static constexpr bool RW = KT<M>::rw;
     alignas(64) unsigned char stackbuf[sizeof(S) + 64];
     unsigned char* buf = stackbuf;
     S* p = nullptr; M* m = nullptr; int iface = IF_ACQ; bool writer = true;
+    // reuse: one scoped_lock object serves many requests (acquire / try_acquire -> release, again and again) instead of a freshly
+    // constructed one per request: whatever a release leaves behind in the object (queue links of the queuing kinds) meets the next request
+    bool reuse = false; S* idle = nullptr;
     Lk() { next_node(); }
-    ~Lk() { if (buf != stackbuf) ::operator delete(buf, std::align_val_t(64)); }
+    ~Lk() { if (idle) idle->~S(); if (buf != stackbuf) ::operator delete(buf, std::align_val_t(64)); }
     Lk(const Lk&) = delete; Lk& operator=(const Lk&) = delete;
     // called after every release / failed try: the node of the next request
     void next_node() {
-        if (!g_heap_nodes) return;
+        if (!g_heap_nodes || idle) return;
         if (buf != stackbuf) ::operator delete(buf, std::align_val_t(64));
         buf = static_cast<unsigned char*>(::operator new(sizeof(S) + 64, std::align_val_t(64)));
     }
@@ -163,15 +167,16 @@ template <class M> struct Lk {
             }
         }
         if (ifc == IF_CTOR && !try_) {
+            if (idle) { idle->~S(); idle = nullptr; }
             if constexpr (RW) p = new (buf) S(mm, write); else p = new (buf) S(mm);
             return true;
         }
         iface = IF_ACQ;
-        p = new (buf) S();
+        if (idle) { p = idle; idle = nullptr; g_reused_objects.fetch_add(1, std::memory_order_relaxed); } else p = new (buf) S();
         bool ok;
         if constexpr (RW) { if (try_) ok = p->try_acquire(mm, write); else { p->acquire(mm, write); ok = true; } }
         else { if (try_) ok = p->try_acquire(mm); else { p->acquire(mm); ok = true; } }
-        if (!ok) { p->~S(); p = nullptr; next_node(); }
+        if (!ok) { if (reuse) { idle = p; p = nullptr; } else { p->~S(); p = nullptr; next_node(); } }
         return ok;
     }
     bool upgrade() { if constexpr (RW) { writer = true; return p->upgrade_to_writer(); } return true; }
@@ -183,7 +188,7 @@ template <class M> struct Lk {
             }
             return;
         }
-        if (iface == IF_CTOR) p->~S(); else { p->release(); p->~S(); }
+        if (iface == IF_CTOR) p->~S(); else { p->release(); if (reuse) { idle = p; p = nullptr; return; } p->~S(); }
         p = nullptr; next_node();
     }
 };
@@ -343,7 +348,7 @@ template <class M> static void run_chain(Ctx& c, Lk<M>& lk, int lock, bool write
 template <class M> static void run_x(Ctx& c) {
     constexpr bool RW = KT<M>::rw;
     Rng& r = c.rng; const RoundParams& rp = c.rp;
-    Lk<M> lk;
+    Lk<M> lk; lk.reuse = rp.reuse_objects;
     for (int i = 0; i < rp.nops; i++) {
         int lock = rp.nlocks == 2 ? (int)r.below(2) : 0;
         bool write = RW ? r.chance((unsigned)rp.wpct, 100) : true;
@@ -461,6 +466,7 @@ static RoundParams make_params(Batch& B, uint64_t rseed) {
     if (B.only_cls >= 0) p.cls = B.only_cls;
     if (p.cls == C_U && (!B.rw || B.nthreads < 2)) p.cls = C_X;
     if (p.cls == C_R && B.kind != K_QUEUING_RW) p.cls = C_X;
+    p.reuse_objects = r.chance(1, 2);
     p.reupgrade = true;   // queuing_rw_mutex used to strand a waiting upgrader here (repaired in /repo: fix 8d13147); every class produces the pattern now
     p.nlocks = ((p.cls == C_X || p.cls == C_R) && r.chance(1, 4)) ? 2 : 1;
     bool sleeper = B.kind == K_MUTEX || B.kind == K_RW;
@@ -743,7 +749,7 @@ int main(int argc, char** argv) {
     for (int i = 0; i < 16; i++) R.stat(names[i], acc[i]);
     R.stat("fifo_certain_order_pairs", fifo_pairs); R.stat("fifo_requests_checked", fifo_requests); R.stat("fifo_blocking_requests_without_witness", fifo_no_witness);
     R.stat("upgrade_storms", storms); R.stat("upgrade_storms_with_a_loser", storms_over);
-    R.stat("hook_delays", (long long)perturb().delays.load());
+    R.stat("requests_on_a_reused_scoped_lock_object", g_reused_objects.load()); R.stat("hook_delays", (long long)perturb().delays.load());
     uint64_t sleeps = 0; for (auto* t : hook_threads_snapshot()) sleeps += t->sleeps.load();
     R.stat("kernel_sleeps_entered", (long long)sleeps);
     // vrt's per-thread hook records are never freed by design; keep those of the exited batch threads reachable for LeakSanitizer
